@@ -23,6 +23,11 @@ for l in rows:
         sg=(sig.group(1) if sig else '-').replace('|','\\|')
         mut.append(f"| {name} | {cid} | {res}{note} | {sg} |")
 if mut:
+    # rows of mutants that were not part of this run are kept from the existing file
+    have={r.split('|')[1].strip() for r in mut}
+    if os.path.exists('/verif/mutants/RESULTS.md'):
+        for r in open('/verif/mutants/RESULTS.md'):
+            if r.startswith('| ') and not r.startswith('| mutant') and r.split('|')[1].strip() not in have: mut.append(r.rstrip())
     out=["# Sensitivity probes: own mutants","","Each patch is applied to a worktree of /repo, the harness is rebuilt against it and the property's quick tier is run (`tools/lanes.sh`, the same binary and commands as `./check <ID> quick`), then the tree is reverted. `killed` = exit 1 with a VIOLATION line.","","| mutant | property | result | failure signature |","|---|---|---|---|"]+sorted(mut)
     open('/verif/mutants/RESULTS.md','w').write("\n".join(out)+"\n")
 print(len(rows),"results merged")
